@@ -30,6 +30,9 @@ type Bounce struct {
 	// of the failed message (for the "carries the original header" clause).
 	Sender      string
 	OrigSubject string
+	// OrigFields, if set: every header field of the failed message (name, value); the report's header part
+	// must contain each of them (per field name the same values, white space runs collapsed)
+	OrigFields [][2]string
 	// Next, if set, receives every call as well (e.g. a second real queue standing in for
 	// a bounce pipeline that routes into a queue); its errors are ignored.
 	Next module.DeliveryTarget
@@ -102,7 +105,8 @@ func (d *bounceDelivery) AddRcpt(ctx context.Context, rcptTo string, _ smtp.Rcpt
 // stage whose scripted failure ended it.
 func (d *bounceDelivery) final(stage, res string) {
 	ev := vtrace.Ev{"n": d.n, "stage": stage, "res": res, "known": d.report != nil, "from": d.from,
-		"rcpts": []string{}, "rewritten": []string{}, "status": map[string]string{"-": "-"}, "mimeOK": true,
+		"rcpts": []string{}, "rewritten": []string{}, "status": map[string]string{"-": "-"},
+		"cls": map[string]string{"-": "-"}, "mimeOK": true,
 		"reportType": "delivery-status", "parts": 3, "dsnAscii": true, "hasOrigHdr": true,
 		"origSubjOK": true, "toSender": true, "to": ""}
 	if len(d.to) > 0 {
@@ -132,9 +136,18 @@ func (d *bounceDelivery) final(stage, res string) {
 			st["-"] = "-"
 		}
 		ev["status"] = st
+		// class digit of each listed status (a data abstraction for the specification, which cannot index strings)
+		cls := map[string]string{}
+		for k, v := range st {
+			cls[k] = "-"
+			if len(v) > 0 {
+				cls[k] = v[:1]
+			}
+		}
+		ev["cls"] = cls
 		ev["rcpts"], ev["rewritten"] = listed, rewritten
 		oh, _ := d.report["origHdr"].(string)
-		ev["origSubjOK"] = d.b.OrigSubject == "" || strings.Contains(oh, d.b.OrigSubject)
+		ev["origSubjOK"] = (d.b.OrigSubject == "" || strings.Contains(oh, d.b.OrigSubject)) && fieldsIn(oh, d.b.OrigFields)
 	}
 	d.b.Tr.Emit("Dsn", ev)
 }
@@ -276,4 +289,34 @@ func (d *bounceDelivery) Abort(ctx context.Context) error {
 	}
 	d.final(stage, res)
 	return nil
+}
+
+// fieldsIn: does the header block blob (as found in the report) carry every field of want?
+// Parsed with net/textproto; values are compared per field name as multisets, white space collapsed.
+func fieldsIn(blob string, want [][2]string) bool {
+	if len(want) == 0 {
+		return true
+	}
+	if !strings.HasSuffix(blob, "\r\n\r\n") && !strings.HasSuffix(blob, "\n\n") {
+		blob += "\r\n\r\n"
+	}
+	h, _ := textproto.NewReader(bufio.NewReader(strings.NewReader(blob))).ReadMIMEHeader()
+	norm := func(v string) string { return strings.Join(strings.Fields(v), " ") }
+	have := map[string]map[string]int{}
+	for k, vs := range h {
+		for _, v := range vs {
+			if have[k] == nil {
+				have[k] = map[string]int{}
+			}
+			have[k][norm(v)]++
+		}
+	}
+	for _, f := range want {
+		k := textproto.CanonicalMIMEHeaderKey(f[0])
+		if have[k][norm(f[1])] == 0 {
+			return false
+		}
+		have[k][norm(f[1])]--
+	}
+	return true
 }
